@@ -43,6 +43,7 @@ func runC02(c *core.Ctx) {
 		if cfg.AddBias == 0 && !cfg.StartPaused {
 			cfg.AddBias = 2
 		}
+		cfg.KeepGoing = true
 		dir, done := caseDir(c, i)
 		rep := twin.RunProgram(rng, dir, cfg)
 		done()
